@@ -147,6 +147,10 @@ func VH_C05() {
 		} else {
 			msg = vString(1)
 		}
+		if vBool() {
+			// longer texts with HTML-like markup, entities, leading blanks and CR (data, not markup, in logfmt)
+			msg = vMarkupTexts[vChoose(len(vMarkupTexts))]
+		}
 	}
 	afterGroup := false
 	var mk func(prefix string, key string, d int) Attr
